@@ -17,10 +17,10 @@ import (
 	"context"
 	"io"
 	"net"
+	"time"
 
 	"github.com/honeytrap/honeytrap/director"
 	"github.com/honeytrap/honeytrap/event"
-	"github.com/honeytrap/honeytrap/listener"
 	"github.com/honeytrap/honeytrap/pushers"
 )
 
@@ -51,17 +51,33 @@ func (s *copyService) SetChannel(c pushers.Channel) {
 	s.c = c
 }
 
+// udpReplyWait is how long the copy service keeps relaying replies to one datagram.
+const udpReplyWait = 5 * time.Second
+
 func (s *copyService) Handle(ctx context.Context, conn net.Conn) error {
 	defer conn.Close()
-	switch conn.(type) {
-	case *listener.DummyUDPConn:
-		defer s.c.Send(event.New(
+
+	// the server hands over wrapped connections, so the concrete connection type
+	// says nothing: tell datagram from stream by the local address, the way the
+	// directors do
+	switch conn.LocalAddr().(type) {
+	case *net.UDPAddr:
+		s.c.Send(event.New(
 			EventOptions,
 			event.Category("copy"),
-			event.Type("tcp"),
+			event.Type("udp"),
 			event.SourceAddr(conn.RemoteAddr()),
 			event.DestinationAddr(conn.LocalAddr()),
 		))
+
+		// a connection stands for one datagram: relay it, then the replies
+		// that follow it
+		buff := make([]byte, 65535)
+
+		n, err := conn.Read(buff)
+		if err != nil {
+			return err
+		}
 
 		conn2, err := s.d.Dial(conn)
 		if err != nil {
@@ -70,15 +86,28 @@ func (s *copyService) Handle(ctx context.Context, conn net.Conn) error {
 
 		defer conn2.Close()
 
-		go io.Copy(conn2, conn)
-		_, err = io.Copy(conn, conn2)
+		if _, err := conn2.Write(buff[:n]); err != nil {
+			return err
+		}
 
-		return err
-	case *net.TCPConn:
+		for {
+			conn2.SetReadDeadline(time.Now().Add(udpReplyWait))
+
+			n, err := conn2.Read(buff)
+			if err != nil {
+				// no (more) replies
+				return nil
+			}
+
+			if _, err := conn.Write(buff[:n]); err != nil {
+				return err
+			}
+		}
+	case *net.TCPAddr:
 		defer s.c.Send(event.New(
 			EventOptions,
 			event.Category("copy"),
-			event.Type("udp"),
+			event.Type("tcp"),
 			event.SourceAddr(conn.RemoteAddr()),
 			event.DestinationAddr(conn.LocalAddr()),
 		))
